@@ -12,7 +12,7 @@ import (
 func init() {
 	Register(&Property{
 		ID: "C16", Level: "exploration",
-		Rule: "E1/E2: 7 methods x {considered = known, subset} x valuesRange {declared, observed} x starting state {root, after each of 12 core biases, after 16 pairs (thorough: 144)} " +
+		Rule: "E1/E2: 7 methods x {considered = known, subset} x valuesRange {declared, observed, observed with one strictly negative criterion} x starting state {root, after each of 12 core biases, after 16 pairs (thorough: 144)} " +
 			"x ordering (5) x ratio {0.34,0.5,1,0} x min/max {-, min 1, max 1, min 2}; one real PreferenceReversal.Apply per case, compared with the reference: count k, v' = max+min-v for every known " +
 			"alternative on the selected criteria (range = declared or observed over all known alternatives of the current state), report = criteria/ranges/new values, everything else identical, " +
 			"observed ranges preserved, reversing the same criteria twice restores the data; for root states ordering weakest/strongest is checked against the documented importance. " +
@@ -247,9 +247,15 @@ func c16Run(s *Shard) {
 	sampled := false
 	for _, method := range allMethods {
 		for _, subset := range []bool{false, true} {
-			for _, ranges := range []bool{false, true} {
-				root := rootRequest(method, subset, ranges)
-				for _, pre := range prefixes {
+			for variant := 0; variant < 3; variant++ { // observed range, declared range, c1 strictly negative (observed)
+				root := rootRequest(method, subset, variant == 1)
+				if variant == 2 {
+					root = negativeVariant(root)
+				}
+				for pi, pre := range prefixes {
+					if variant == 2 && pi > 12 {
+						continue
+					}
 					if !s.Take() {
 						continue
 					}
